@@ -8,6 +8,8 @@ import (
 	"bytes"
 	"fmt"
 	"math/bits"
+	"sort"
+	"sync"
 	"sync/atomic"
 
 	"github.com/datastax/go-cassandra-native-protocol/compression/lz4"
@@ -98,6 +100,156 @@ func main() {
 			bases = append(bases, base{fmt.Sprintf("none/len%d/sc%v", n, sc), plain, enc(c, plain, p, sc), 48})
 			bases = append(bases, base{fmt.Sprintf("lz4/len%d/sc%v", n, sc), lz, enc(c, lz, p, sc), 64})
 		}
+	}
+	// the CRC-32 used must be the seeded IEEE CRC (detection guarantees are those of that code)
+	for _, n := range []int{0, 1, 2, 3, 4, 5, 63, 64, 65, 1000, 65535, 65536, 131071} {
+		for _, class := range []string{"zeros", "random", "text"} {
+			p := gen.Payload(n, class)
+			evals++
+			if crc.ChecksumIEEE(p) != refseg.Crc32(p) {
+				c.Violation(map[string]string{"kind": "crc32-differs-from-spec"}, fmt.Sprintf("ChecksumIEEE differs from the seeded CRC-32 for a %s payload of %d bytes", class, n), n)
+			}
+		}
+	}
+	// ------------------------------------------------------------------ large payloads: pairs and bursts through syndromes
+	// For a payload of n bytes the syndrome of bit i is s_i = CRC(m ^ e_i) ^ CRC(m), computed with the
+	// library's own ChecksumIEEE for EVERY bit of the payload; the 32 bits of the transmitted CRC-32
+	// have the unit syndromes. If the checksum is affine (spot-checked below), a corruption pattern P
+	// is undetected iff the XOR of its syndromes is 0. So: all syndromes non-zero and pairwise distinct
+	// <=> every single flip and every PAIR of flips anywhere is detected; every window of 32
+	// consecutive syndromes linearly independent <=> every burst of <= 32 bits at every offset is
+	// detected. That is all n*8+32 single flips, all ~5*10^11 pairs and all 2^31 burst shapes per
+	// offset for n = 131071 - not reachable by direct enumeration. Every dependency found is turned
+	// into a concrete corrupted segment and reported only if the real DecodeSegment accepts it.
+	synSizes := []int{65536}
+	if c.Thorough() {
+		synSizes = []int{1024, 4096, 65535, 65536, 65537, 100000, 131070, 131071}
+	}
+	var synBits, synWindows, synPairsCovered, premiseFailed, affinityChecks int64
+	for _, n := range synSizes {
+		if c.Expired("the syndrome analysis of large payloads") {
+			break
+		}
+		m := gen.Payload(n, "random")
+		c0 := crc.ChecksumIEEE(m)
+		nb := n*8 + 32
+		syn := make([]uint32, nb)
+		vlib.ParFor(64, func(sh int) {
+			w := append([]byte{}, m...)
+			for by := sh; by < n; by += 64 {
+				for t := 0; t < 8; t++ {
+					w[by] ^= 1 << uint(t)
+					syn[by*8+t] = crc.ChecksumIEEE(w) ^ c0
+					w[by] ^= 1 << uint(t)
+				}
+			}
+		})
+		for k := 0; k < 32; k++ {
+			syn[n*8+k] = 1 << uint(k) // CRC-32 is transmitted little-endian: wire bit k of the field is bit k of the value
+		}
+		atomic.AddInt64(&evals, int64(n*8))
+		synBits += int64(nb)
+		synPairsCovered += int64(nb) * int64(nb-1) / 2
+		wire := enc(c, plain, m, true)
+		confirm := func(desc string, positions []int) {
+			w := append([]byte{}, wire...)
+			for _, b := range positions {
+				w[6+b/8] ^= 1 << uint(b%8)
+			}
+			if ok, seg, why := accepted(plain, w); ok {
+				c.Violation(map[string]string{"kind": "payload-corruption-accepted", "pattern": desc, "format": "none"}, fmt.Sprintf("segment (none, payload %d bytes) with %s at bits %v of payload+CRC-32 is accepted %s (segment returned: %v)", n, desc, positions, why, seg != nil), map[string]interface{}{"payload_len": n, "pattern": desc, "bits": positions})
+			} else {
+				atomic.AddInt64(&premiseFailed, 1) // the checksum is not affine there: the reduction does not apply
+			}
+		}
+		// singles and pairs: sort positions by syndrome, equal neighbours collide
+		idx := make([]int32, nb)
+		for i := range idx {
+			idx[i] = int32(i)
+		}
+		sort.Slice(idx, func(a, b int) bool {
+			if syn[idx[a]] != syn[idx[b]] {
+				return syn[idx[a]] < syn[idx[b]]
+			}
+			return idx[a] < idx[b]
+		})
+		reported := 0
+		for k := 0; k < nb && reported < 8; k++ {
+			if syn[idx[k]] == 0 {
+				confirm("single bit flip (zero syndrome)", []int{int(idx[k])})
+				reported++
+			} else if k > 0 && syn[idx[k]] == syn[idx[k-1]] {
+				confirm("two bit flips", []int{int(idx[k-1]), int(idx[k])})
+				reported++
+			}
+		}
+		// bursts: every window of 32 consecutive syndromes must be linearly independent
+		var depMu sync.Mutex
+		var deps [][]int
+		vlib.ParFor(256, func(sh int) {
+			for i := sh; i+1 < nb; i += 256 {
+				var basis, combo [32]uint32 // basis[b]: vector with leading bit b; combo: which window members made it
+				end := i + 32
+				if end > nb {
+					end = nb
+				}
+				for j := i; j < end; j++ {
+					v, cm := syn[j], uint32(1)<<uint(j-i)
+					for v != 0 {
+						b := 31 - bits.LeadingZeros32(v)
+						if basis[b] == 0 {
+							basis[b], combo[b] = v, cm
+							break
+						}
+						v ^= basis[b]
+						cm ^= combo[b]
+					}
+					if v == 0 {
+						var pos []int
+						for k := 0; k < 32; k++ {
+							if cm&(1<<uint(k)) != 0 {
+								pos = append(pos, i+k)
+							}
+						}
+						depMu.Lock()
+						if len(deps) < 8 {
+							deps = append(deps, pos)
+						}
+						depMu.Unlock()
+						break
+					}
+				}
+			}
+		})
+		synWindows += int64(nb - 1)
+		for _, pos := range deps {
+			confirm(fmt.Sprintf("burst of %d bits", pos[len(pos)-1]-pos[0]+1), pos)
+		}
+		// affinity, the premise: CRC(m ^ e_i ^ e_j) == CRC(m) ^ s_i ^ s_j for structured pairs (neighbours, byte,
+		// word, 4 KiB, half-length and end-relative distances) from every 97th bit
+		w := append([]byte{}, m...)
+		for i := 0; i < n*8; i += 97 {
+			for _, d := range []int{1, 7, 8, 31, 32, 64, 4096 * 8, n * 4, n*8 - 1 - 2*i} {
+				j := i + d
+				if j <= i || j >= n*8 {
+					continue
+				}
+				w[i/8] ^= 1 << uint(i%8)
+				w[j/8] ^= 1 << uint(j%8)
+				got := crc.ChecksumIEEE(w)
+				w[i/8] ^= 1 << uint(i%8)
+				w[j/8] ^= 1 << uint(j%8)
+				affinityChecks++
+				evals++
+				if got != c0^syn[i]^syn[j] {
+					premiseFailed++
+				}
+			}
+		}
+	}
+	c.Set("syndrome_analysis", map[string]interface{}{"payload_sizes": synSizes, "bit_positions": synBits, "pairs_covered": synPairsCovered, "burst_windows": synWindows, "affinity_spot_checks": affinityChecks, "premise_failures": premiseFailed})
+	if premiseFailed > 0 {
+		c.Cap(fmt.Sprintf("ChecksumIEEE is not affine on %d checked patterns: the syndrome reduction for large payloads does not apply there", premiseFailed))
 	}
 	maxDirect := 4
 	if c.Thorough() {
@@ -298,16 +450,6 @@ func main() {
 			atomic.AddInt64(&evals, local)
 			atomic.AddInt64(&direct, local)
 		})
-	}
-	// the CRC-32 used must be the seeded IEEE CRC (detection guarantees are those of that code)
-	for _, n := range []int{0, 1, 2, 3, 4, 5, 63, 64, 65, 1000, 65535, 65536, 131071} {
-		for _, class := range []string{"zeros", "random", "text"} {
-			p := gen.Payload(n, class)
-			evals++
-			if crc.ChecksumIEEE(p) != refseg.Crc32(p) {
-				c.Violation(map[string]string{"kind": "crc32-differs-from-spec"}, fmt.Sprintf("ChecksumIEEE differs from the seeded CRC-32 for a %s payload of %d bytes", class, n), n)
-			}
-		}
 	}
 	c.Sample(map[string]interface{}{"base": bases[0].name, "pattern": "header+CRC-24 bits 0x21 flipped", "expected": "DecodeSegment returns an error and no segment"})
 	c.Sample(map[string]interface{}{"payload_len": 5, "pattern": "burst of 12 bits starting at bit 3 of payload+CRC-32"})
